@@ -56,6 +56,10 @@ func (f *Frame) silentCallee(ci ssa.CallInstruction, p callPlan) bool {
 	if pkg == "" {
 		return false
 	}
+	// per-package tracing helpers: <pkg>/internal.StartSpan(ctx, name, ...)
+	if p.fn != nil && p.fn.Name() == "StartSpan" && strings.HasSuffix(pkg, "/internal") {
+		return true
+	}
 	for _, n := range silentPkgs {
 		if pkg == n || strings.HasPrefix(pkg, n+"/") || (strings.HasSuffix(n, "/") && strings.HasPrefix(pkg, n)) {
 			return true
@@ -177,6 +181,15 @@ func (f *Frame) resolve(ci ssa.CallInstruction) callPlan {
 			return planFromContract(fc, callPlan{name: key, sig: sig, owner: owner, recv: owner != nil})
 		}
 	}
+	if f.fc != nil && len(f.fc.Dyn) > 0 {
+		for sel, k := range f.siteOrd[ci] {
+			for _, key := range []string{sel, fmt.Sprintf("%s#%d", sel, k)} {
+				if pol, ok := f.fc.Dyn[key]; ok {
+					return callPlan{kind: "noeffect", name: "dynamic call " + key + " (declared " + pol + ")", sig: sig}
+				}
+			}
+		}
+	}
 	return callPlan{kind: "havoc", name: "dynamic call", sig: sig}
 }
 
@@ -225,6 +238,10 @@ func (f *Frame) resolveStatic(fn *ssa.Function, cl *closure, sig *types.Signatur
 		return p
 	}
 	pkg := pkgPathOf(fn)
+	if fn.Name() == "StartSpan" && strings.HasSuffix(pkg, "/internal") {
+		p.kind = "noeffect"
+		return p
+	}
 	if isNoEffectPkg(pkg) {
 		p.kind = "noeffect"
 		// deterministic value-only functions become uninterpreted functions
@@ -930,8 +947,8 @@ func (f *Frame) appendOp(ci ssa.CallInstruction, args []Val, st *State, reach Te
 	I := c.I()
 	s := args[0].T
 	stp := cm.Args[0].Type().Underlying().(*types.Slice)
-	es := c.sortOf(stp.Elem())
 	comp := c.elemComp(stp.Elem())
+	es := c.sortOf(stp.Elem())
 	var tlen Term
 	var telem func(j Term) (Term, bool)
 	t := args[1]
@@ -939,7 +956,7 @@ func (f *Frame) appendOp(ci ssa.CallInstruction, args []Val, st *State, reach Te
 	case SSlice:
 		tlen = app(I, "sl_len", t.T)
 		src := app(elemOfArr(c.compSort[comp]), "select", c.get(st, comp), app(SInt, "sl_arr", t.T))
-		telem = func(j Term) (Term, bool) { return tSelect(src, c.iadd(app(I, "sl_off", t.T), j), es), true }
+		telem = func(j Term) (Term, bool) { return c.slElem(src, app(I, "sl_off", t.T), j), true }
 	case SStr:
 		tlen = app(I, "str_len", t.T)
 		telem = func(j Term) (Term, bool) { return c.strAt(t.T, j), true }
@@ -949,13 +966,16 @@ func (f *Frame) appendOp(ci ssa.CallInstruction, args []Val, st *State, reach Te
 	}
 	slen, scap, soff, sarr := app(I, "sl_len", s), app(I, "sl_cap", s), app(I, "sl_off", s), app(SInt, "sl_arr", s)
 	nlen := c.define(f.name("app_len"), c.iadd(slen, tlen))
+	if c.mode == "int" {
+		c.assume(tImp(reach, c.typeRange(nlen, types.Typ[types.Int])), false)
+	}
 	inplace := c.define(f.name("app_inplace"), c.ile(nlen, scap))
 	fresh := c.define(f.name("app_arr"), app(SInt, "+", st.alloc, intLit(1)))
 	st.alloc = fresh
 	ncap := c.fresh(f.name("app_cap"), I)
-	c.assume(c.ile(nlen, ncap), false)
+	c.assume(tAnd(c.ile(nlen, ncap), c.typeRange(ncap, types.Typ[types.Int])), false)
 	rarr := tIte(inplace, sarr, fresh)
-	roff := tIte(inplace, soff, c.intConst(0, I))
+	roff := c.define(f.name("app_off"), tIte(inplace, soff, c.intConst(0, I)))
 	rcap := tIte(inplace, scap, ncap)
 	r := c.define(f.name("app"), app(SSlice, "mk_Slice", rarr, roff, nlen, rcap))
 	cur := c.get(st, comp)
@@ -964,17 +984,18 @@ func (f *Frame) appendOp(ci ssa.CallInstruction, args []Val, st *State, reach Te
 	c.nfresh++
 	j := T(I, fmt.Sprintf("j!q%d", c.nfresh))
 	z := c.intConst(0, I)
-	// old elements preserved
+	// old elements preserved (trigger: sl_elem(narr, roff, j))
 	c.assume(T(SBool, fmt.Sprintf("(forall ((%s %s)) %s)", j.S, I,
-		tImp(tAnd(c.ile(z, j), c.ilt(j, slen)), tEq(tSelect(narr, c.iadd(roff, j), es), tSelect(old, c.iadd(soff, j), es))).S)), false)
-	if e0, ok := telem(j); ok {
+		tImp(tAnd(c.ile(z, j), c.ilt(j, slen)), tEq(c.slElem(narr, roff, j), c.slElem(old, soff, j))).S)), false)
+	if e0, ok := telem(c.isub(j, slen)); ok {
+		// appended elements: index k in [slen, nlen) holds t[k - slen]
 		c.assume(T(SBool, fmt.Sprintf("(forall ((%s %s)) %s)", j.S, I,
-			tImp(tAnd(c.ile(z, j), c.ilt(j, tlen)), tEq(tSelect(narr, c.iadd(c.iadd(roff, slen), j), es), e0)).S)), false)
+			tImp(tAnd(c.ile(slen, j), c.ilt(j, nlen)), tEq(c.slElem(narr, roff, j), e0)).S)), false)
 		// explicit instance for the common one-element append
 		e1, _ := telem(z)
-		c.assume(tImp(c.ilt(z, tlen), tEq(tSelect(narr, c.iadd(roff, slen), es), e1)), false)
+		c.assume(tImp(c.ilt(z, tlen), tEq(c.slElem(narr, roff, slen), e1)), false)
 	}
-	// in place: everything outside the appended window is unchanged
+	// in place: everything outside the appended window is unchanged (absolute positions)
 	c.assume(tImp(inplace, T(SBool, fmt.Sprintf("(forall ((%s %s)) %s)", j.S, I,
 		tImp(tOr(c.ilt(j, c.iadd(soff, slen)), c.ile(c.iadd(soff, nlen), j)), tEq(tSelect(narr, j, es), tSelect(old, j, es))).S))), false)
 	c.set(st, comp, tStore(cur, rarr, narr))
@@ -997,7 +1018,7 @@ func (f *Frame) copyOp(ci ssa.CallInstruction, args []Val, st *State, reach Term
 		s := args[1].T
 		slen = app(I, "sl_len", s)
 		src := app(elemOfArr(cur.Sort), "select", cur, app(SInt, "sl_arr", s))
-		selem = func(j Term) Term { return tSelect(src, c.iadd(app(I, "sl_off", s), j), es) }
+		selem = func(j Term) Term { return c.slElem(src, app(I, "sl_off", s), j) }
 	default:
 		s := args[1].T
 		slen = app(I, "str_len", s)
@@ -1011,7 +1032,7 @@ func (f *Frame) copyOp(ci ssa.CallInstruction, args []Val, st *State, reach Term
 	j := T(I, fmt.Sprintf("j!q%d", c.nfresh))
 	z := c.intConst(0, I)
 	c.assume(T(SBool, fmt.Sprintf("(forall ((%s %s)) %s)", j.S, I,
-		tImp(tAnd(c.ile(z, j), c.ilt(j, n)), tEq(tSelect(narr, c.iadd(doff, j), es), selem(j))).S)), false)
+		tImp(tAnd(c.ile(z, j), c.ilt(j, n)), tEq(c.slElem(narr, doff, j), selem(j))).S)), false)
 	c.assume(T(SBool, fmt.Sprintf("(forall ((%s %s)) %s)", j.S, I,
 		tImp(tOr(c.ilt(j, doff), c.ile(c.iadd(doff, n), j)), tEq(tSelect(narr, j, es), tSelect(old, j, es))).S)), false)
 	c.set(st, comp, tStore(cur, darr, narr))
